@@ -365,7 +365,7 @@ class Gen:
             twice = r.random() < 0.2
             # laying out twice: a second flatten() moves an EMPTY section (and the labels bound in it) to the aligned end of its extended
             # predecessor, references resolved by the first layout would be stale - that is C10's subject, keep sections non-empty there
-            L += self.no_empty_section(nsec)     # laying out twice with empty sections is fine again: flatten() is idempotent (28f9637)
+            L += self.no_empty_section(nsec, force=twice)
             L.append("F")
             if twice:
                 L.append("F")
